@@ -131,6 +131,7 @@ struct pr {
 	char		sidebuf[128];
 	int		sidelen;
 	int64_t		stuck_since;
+	_Atomic int	stop_pending, cont_pending;
 };
 static struct pr prs[MAXP];
 static _Atomic int nprs;
@@ -142,7 +143,7 @@ static __thread struct pr *tl_submitting;
 
 static struct {
 	uint64_t cases, requests, type_r, type_w, closes_before_start, closes_running, closes_after_exit, terms_sent, kills_sent, acks, deaths,
-		 bytes_r, bytes_w, full_escalations, schedule_checks, two_loop_cases, zombies_written_off, joint_exits;
+		 bytes_r, bytes_w, full_escalations, schedule_checks, two_loop_cases, zombies_written_off, joint_exits, stops_sent, stops_reaped, conts_reaped;
 } S;
 
 static struct pr *pr_by_pid(int pid)
@@ -176,6 +177,17 @@ void hk_wait4(pid_t arg, int options, pid_t ret, int status)
 		S.deaths++;
 		if (n > 0)
 			vt_ext_add(-n);
+	} else if (WIFSTOPPED(status) && atomic_exchange(&p->stop_pending, 0)) {
+		/* the stop the harness ordered has been seen by the library: continue the child at once (that is the next thing owed) */
+		S.stops_reaped++;
+		atomic_store(&p->cont_pending, 1);
+		if (__real_kill(ret, SIGCONT) < 0) {
+			atomic_store(&p->cont_pending, 0);
+			if (atomic_load(&p->outstanding) > 0) { atomic_fetch_sub(&p->outstanding, 1); vt_ext_add(-1); }
+		}
+	} else if (WIFCONTINUED(status) && atomic_exchange(&p->cont_pending, 0)) {
+		S.conts_reaped++;
+		if (atomic_load(&p->outstanding) > 0) { atomic_fetch_sub(&p->outstanding, 1); vt_ext_add(-1); }
 	}
 }
 
@@ -429,6 +441,25 @@ static void tell_exit_stim(void *v)
 	free(a);
 }
 
+/* job control: the child is stopped and, as soon as the library has seen the stop, continued (a living child all along) */
+static void stopcont_stim(void *v)
+{
+	struct xarg *a = v;
+	struct pr *p = &prs[a->i];
+	if (a->i < nprs && p->pid > 0 && !p->dead_reaped && !atomic_load(&p->stop_pending) && !atomic_load(&p->cont_pending)) {
+		atomic_fetch_add(&p->outstanding, 1);
+		vt_ext_add(1);
+		atomic_store(&p->stop_pending, 1);
+		S.stops_sent++;
+		if (__real_kill(p->pid, SIGSTOP) < 0) {
+			atomic_store(&p->stop_pending, 0);
+			atomic_fetch_sub(&p->outstanding, 1);
+			vt_ext_add(-1);
+		}
+	}
+	free(a);
+}
+
 /* two loops: children of both are told to go at the same instant (their deaths, SIGCHLDs and the release of the wait interests overlap) */
 static void joint_exit_stim(void *v)
 {
@@ -499,6 +530,13 @@ static void submit(struct loopthr *lt, struct pr *p)
 	if (p->type_r) p->ivfd->handler_in = fd_in; else p->ivfd->handler_out = fd_out;
 	iv_fd_register(p->ivfd);
 
+	if (rng_pct(&lt->rng, 30)) {
+		/* stop + continue at some virtual instant: before the close, around it, or in the middle of the signalling sequence */
+		static const int64_t when[] = { 200000LL, 3000000LL, 900000000LL, 4000000000LL, 7000000000LL, 17000000000LL, 32000000000LL };
+		struct xarg *a = malloc(sizeof(*a));
+		a->i = (int)(p - prs);
+		vt_stim_at(vt_now() + when[rng_n(&lt->rng, 7)] + (int64_t)rng_n(&lt->rng, 2000000), stopcont_stim, a);
+	}
 	p->close_mode = rng_n(&lt->rng, 4);
 	if (p->close_mode == 0) {
 		do_close(p);		/* close without the child ever having been run by the scheduler, possibly */
@@ -707,11 +745,11 @@ int main(int argc, char **argv)
 		run_case(i, seed);
 	mon_printf("STAT method=%s cases=%llu requests=%llu type_r=%llu type_w=%llu closed_before_child_started=%llu closed_while_running=%llu closed_after_exit=%llu "
 		   "sigterm_sent=%llu sigkill_sent=%llu acks=%llu deaths_reaped=%llu full_escalations=%llu schedule_checks=%llu bytes_read=%llu bytes_written=%llu "
-		   "two_loop_cases=%llu joint_exit_stimuli=%llu zombies_written_off=%llu shim_quiescences=%llu time_advances=%llu violations=%d\n", g_method, (unsigned long long)S.cases, (unsigned long long)S.requests,
+		   "stops_sent=%llu stops_seen_by_library=%llu continues_seen_by_library=%llu two_loop_cases=%llu joint_exit_stimuli=%llu zombies_written_off=%llu shim_quiescences=%llu time_advances=%llu violations=%d\n", g_method, (unsigned long long)S.cases, (unsigned long long)S.requests,
 		   (unsigned long long)S.type_r, (unsigned long long)S.type_w, (unsigned long long)S.closes_before_start, (unsigned long long)S.closes_running,
 		   (unsigned long long)S.closes_after_exit, (unsigned long long)S.terms_sent, (unsigned long long)S.kills_sent, (unsigned long long)S.acks,
 		   (unsigned long long)S.deaths, (unsigned long long)S.full_escalations, (unsigned long long)S.schedule_checks, (unsigned long long)S.bytes_r,
-		   (unsigned long long)S.bytes_w, (unsigned long long)S.two_loop_cases, (unsigned long long)S.joint_exits, (unsigned long long)S.zombies_written_off, (unsigned long long)vt_stats.quiescences, (unsigned long long)vt_stats.time_advances, mon_viol_total);
+		   (unsigned long long)S.bytes_w, (unsigned long long)S.stops_sent, (unsigned long long)S.stops_reaped, (unsigned long long)S.conts_reaped, (unsigned long long)S.two_loop_cases, (unsigned long long)S.joint_exits, (unsigned long long)S.zombies_written_off, (unsigned long long)vt_stats.quiescences, (unsigned long long)vt_stats.time_advances, mon_viol_total);
 	mon_printf("DONE\n");
 	return 0;
 }
